@@ -1,5 +1,5 @@
 (* C10 — concurrent requests and block events behave as if executed one at a time.
-   Statements only (proofs: ConcTowerProofs.v, ConcBreach.v, ConcLin.v, ConcReg.v, ConcPurge.v, ConcCoarse.v, ConcDisc.v, ConcComm.v).  Model: ConcTower.v — the thread
+   Statements only (proofs: ConcTowerProofs.v, ConcBreach.v, ConcLin.v, ConcReg.v, ConcPurge.v, ConcCoarse.v, ConcDisc.v, ConcComm.v, ConcRW.v).  Model: ConcTower.v — the thread
    programs of register / add_appointment / get_appointment / get_subscription_info / block connected / block disconnected at
    lock-acquisition granularity, `run_sched` = all interleavings at EVENT granularity (every lock
    acquisition, release, action under locks and atomic height access is a step of its own).
@@ -35,6 +35,9 @@
                                                    final state are those of its run alone = of every sequential order
      C10_get_disconnect_linearizable, C10_getsub_disconnect_linearizable
                                                    reader || block disconnected: state and BOTH replies of a sequential order
+     C10_get_register_linearizable, C10_getsub_register_linearizable
+                                                   reader || register (same or other user): state and BOTH replies of a
+                                                   sequential order
      C10_register_disconnect_linearizable          register || block disconnected: state and replies of a sequential order
      C10_coarse_runs_are_fine_runs                 every run_coarse execution (what the controlled scheduler replays) is a
                                                    run_sched execution: the theorems cover every run of the harness
@@ -49,10 +52,10 @@
      C10_reader_purge_reply_not_linearizable       get / get_subscription_info || the purging block: "not found" / "no locators"
                                                    (the reader's sections straddle the purge): reply of neither order
    Hence `get || anything` is settled: state and the other thread's reply always (C10_writer_among_readers_runs_alone);
-   the reader's own reply is that of a sequential order against a disconnection (proved) and against readers
-   (C10_reads_linearizable), NOT against add_appointment on the trigger path nor against the purge (refuted); against
-   register, add_appointment off the trigger path and a block without purge that does not touch the reader's rows it is
-   OPEN (the exploration finds no reply of neither order there).
+   the reader's own reply is that of a sequential order against a disconnection, a registration (proved) and against
+   readers (C10_reads_linearizable), NOT against add_appointment on the trigger path nor against the purge (refuted);
+   against add_appointment off the trigger path and a block without purge it is OPEN (the exploration finds no reply
+   of neither order there).
    OPEN (no proof, no counterexample; the exhaustive controlled exploration of the check finds every final
    state of these pairs equal to a sequential order within its preemption bound, up to the height stamps):
      register || add, add || add (different appointment), add || disconnect,
@@ -62,7 +65,7 @@
    appointments leave the rows in the order of their critical sections, which need not be the order of either
    sequential run (the check compares sorted rows).  A proof needs the model's look-ups to be invariant under row
    permutation first; not attempted here. *)
-From TeosModel Require Import Base TxIndex Tower TowerInv Crash ConcTower ConcTowerProofs ConcBreach ConcLin ConcReg ConcPurge ConcCoarse ConcDisc ConcComm.
+From TeosModel Require Import Base TxIndex Tower TowerInv Crash ConcTower ConcTowerProofs ConcBreach ConcLin ConcReg ConcPurge ConcCoarse ConcDisc ConcComm ConcRW.
 From TeosModel Require Import TxIndexProofs.
 From Coq Require Import Permutation.
 From TeosModel.Gen Require Consts.
@@ -433,6 +436,47 @@ Example C10_disconnect_thread_is_prog_of_op :
   = [Some (TOut (OGetRes GetNotFound)); Some (TOut OBlockRes)].
 Proof. split; vm_compute; reflexivity. Qed.
 
+(* ---- a reader and a registration ------------------------------------------------------------------------------
+   get_appointment (resp. get_subscription_info)  ||  register(v), the reader's user the same or another one.  Whatever
+   the schedule, if both return: the registration's receipt and the final state are those of its run alone, and the
+   reader is told what it is told when run alone before the registration (from the initial state) or after it (from
+   the final state).  (The registration writes once; each of the reader's critical sections sees the state before or
+   after that write, and every such mix answers like one of the two pure runs: ConcRW.)
+   For get_subscription_info the subscriptions' expiries are within u32 (every reachable state: TowerLive.ExpInv). *)
+Theorem C10_get_register_linearizable signer loc v t0 sched tf o ow :
+  run_sched t0 [get_p signer loc; register_p v] sched = (tf, [Some (TOut o); Some (TOut ow)]) ->
+  (forall s, o <> OAbort s) -> (forall s, ow <> OAbort s) ->
+  exec (register_p v) t0 = Ok ow tf /\
+  (exec (get_p signer loc) t0 = Ok o t0 \/ exec (get_p signer loc) tf = Ok o tf).
+Proof.
+  exact (reader_and_single_writer_linearizable t0 (get_p signer loc) (register_p v) sched tf o ow
+           (get_readonly signer loc) (register_w1 v) (get_split_good v signer loc t0)).
+Qed.
+
+Theorem C10_getsub_register_linearizable signer v t0 sched tf o ow :
+  (forall u ui, signer = Some u -> gk_get t0 u = Some ui -> u_expiry ui <= U32MAX) ->
+  run_sched t0 [getsub_p signer; register_p v] sched = (tf, [Some (TOut o); Some (TOut ow)]) ->
+  (forall s, o <> OAbort s) -> (forall s, ow <> OAbort s) ->
+  exec (register_p v) t0 = Ok ow tf /\
+  (exec (getsub_p signer) t0 = Ok o t0 \/ exec (getsub_p signer) tf = Ok o tf).
+Proof.
+  intros Hexp. exact (reader_and_single_writer_linearizable t0 (getsub_p signer) (register_p v) sched tf o ow
+           (getsub_readonly signer) (register_w1 v) (fun n => getsub_split_good v signer t0 n Hexp)).
+Qed.
+
+(* non-vacuity: the renewal of user 1 lands between the reader's expiry test and its look at the user's info: the
+   reader is told the renewed subscription (the reply of the order register ; get_subscription_info) *)
+Example C10_reader_register_instances :
+  snd (run_sched w_reg [getsub_p (Some 1); register_p 1] (repeat 0%nat 8 ++ repeat 1%nat 40 ++ repeat 0%nat 40))
+  = [Some (TOut (OSubRes (SubOk 20 920 []))); Some (TOut (ORegisterRes (RegOk 20 120 920)))] /\
+  snd (run_sched w_reg [get_p (Some 1) 7; register_p 1] (repeat 0%nat 5 ++ repeat 1%nat 40 ++ repeat 0%nat 40))
+  = [Some (TOut (OGetRes GetNotFound)); Some (TOut (ORegisterRes (RegOk 20 120 920)))] /\
+  (forall ui, gk_get w_reg 1 = Some ui -> u_expiry ui <= U32MAX).
+Proof.
+  split; [vm_compute; reflexivity|]. split; [vm_compute; reflexivity|].
+  intros ui H. vm_compute in H. inversion H; subst. vm_compute. discriminate.
+Qed.
+
 (* ---- register and a block disconnection ------------------------------------------------------------------------
    register(u)  ||  block `hash` disconnected at height h: whatever the schedule, if both return, state and replies are
    those of a sequential order - the one in which the registration's load of the gatekeeper's height and the
@@ -528,6 +572,8 @@ Print Assumptions C10_no_missed_breach_refined.
 Print Assumptions C10_get_disconnect_linearizable.
 Print Assumptions C10_getsub_disconnect_linearizable.
 Print Assumptions C10_register_disconnect_linearizable.
+Print Assumptions C10_get_register_linearizable.
+Print Assumptions C10_getsub_register_linearizable.
 
 (* non-vacuity of the refined hypotheses: the locator cache of the reachable state w_reg represents a window (it was
    built by ti_new from the bootstrap blocks), its capacity is positive, and block 2001 carrying locator 7 is valid *)
